@@ -38,7 +38,9 @@ def _value(s):
 def build(tree, classes):
     if tree["cls"] == "atom":
         if tree["s"] == "x":
-            return "23:59:60"          # atom "x": a string whose quoting depends on the decoder's grammar (a leap second)
+            return classes["__x__"]    # atom "x": a string chosen per session (see _session)
+        if tree["s"] == "m":
+            return "p q"               # atom "m": a string that needs quotes (a symbol for the ODL family)
         return classes["__qcls__"](1.5) if tree["s"] == "y" else tree["s"]     # atom "y": a value of a custom numeric class
     m = classes[tree["cls"]]()
     for k, sub in tree["items"]:
@@ -50,7 +52,13 @@ def _session(case):
     import pvl
     tree, script = case["tree"], case["script"]
     qcls = type("Length_%x" % (id(case) & 0xffffff), (Length,), {})     # a class of its own for this session
-    m = build(tree, dict(_G["classes"], __qcls__=qcls))
+    # per session: what atom "x" is (a leap-second string whose quoting depends on the decoder's grammar; strings around half
+    # the line width, where the ODL family switches quote style) and which non-default options the session's encoders get
+    h = int(hashlib.blake2b(json.dumps([tree, script], sort_keys=True).encode(), digest_size=4).hexdigest(), 16)
+    xval = ["23:59:60", "a" * 39, "a" * 40, "a" * 41, "ab " * 13][h % 5]
+    opts = [{}, {"width": 60}, {"indent": 4}, {}][(h // 5) % 4]
+    pds_opts = [{}, {"symbol_single_quote": False}, {"convert_group_to_object": True, "tab_replace": 2}][(h // 20) % 3]
+    m = build(tree, dict(_G["classes"], __qcls__=qcls, __x__=xval))
     evs = []
     encs = {}
     for step in script:
@@ -69,6 +77,14 @@ def _session(case):
                 pass
             # ... the session's own encoders asked for other options once, and their decoders shared with other encoders
             for enc in list(encs.values()):
+                try:                    # a module this encoder refuses (a set the PDS3 encoder cannot write, a character no dialect has)
+                    pvl.dumps(_G["classes"]["PVLModule"](k={1.5, "it's"}, s="caf\u0101"), encoder=enc)
+                except Exception:
+                    pass
+                try:
+                    pvl.dumps(_G["classes"]["PVLModule"]([("g", _G["classes"]["PVLGroup"](q="b" * 45))]), encoder=enc)
+                except Exception:
+                    pass
                 try:
                     pvl.dumps(m.copy(), encoder=enc, indent=6, width=40, grammar=enc.grammar)
                     E.PVLEncoder(decoder=enc.decoder)
@@ -84,7 +100,7 @@ def _session(case):
             continue
         enc = encs.get(step)
         if enc is None and step != "DEFAULT":
-            enc = encs[step] = _G["encoders"][step]()      # one encoder instance per dialect and session
+            enc = encs[step] = _G["encoders"][step](**dict(opts, **(pds_opts if step == "PDS3" else {})))      # one encoder instance per dialect and session
         pre = heapops.project(m)
         try:
             with warnings.catch_warnings():
